@@ -5,6 +5,7 @@ of `reduce()`:
 * `listOpSem E : OpSem V`, `listArithSem E : ArithSem V`  — `den := den E`, `mem s x := x.length = s.size`,
   `smul := vsmul`, `add := vadd`, `zero := []`, `invertible := invertibleG E`;
 * `listLeafOK`           — validity of the leaf parameters, class by class (what the Python constructors accept);
+  `toeplitzOK` — a Toeplitz leaf with an un-batched band (the ones the denotation interprets by the kernel);
 * `listRuleLaws E : RuleLaws (listArithSem E)`, `listContainerLaws E : ContainerLaws …`;
 * `reduce_sound_closed`, `reduceTop_sound_closed` — no semantic hypothesis is left: only the syntactic
   well-formedness of the input expression and the environment `E` of the uninterpreted leaves;
@@ -218,10 +219,24 @@ def diagonalOK (p : Params) : Prop :=
     Diagonal.apply true (castT p.vals) (.seq (p.ints.getD 0 [])) (⟨l.shape, c⟩ : Tensor ℝ) = .ok y ∧
     y.shape = l.shape
 
+/-- `SymmetricBandToeplitzOperator(band_values, in_structure)` with an UN-BATCHED band: `band_values` is a
+well-formed array of shape `[K]` with `K ≥ 1` bands (as many values as the shape says), and every leaf of the input
+structure has rank `≥ 1` (the operator acts along the last axis of every leaf).  `K` may exceed the length of the
+last axis.  The method string (`p.str`) and the FFT size (`p.ints`) do not matter: all the evaluation methods
+compute the same banded product (C09, FuraxProofs/Sem/ToeplitzList.lean). -/
+def toeplitzOK (p : Params) : Prop :=
+  (∃ K, 1 ≤ K ∧ p.vals.shape = [K] ∧ p.vals.data.length = K) ∧ ∀ l ∈ p.inS.leaves, l.shape ≠ []
+
+theorem toeplitzOK.toepK {p : Params} (h : toeplitzOK p) : ∃ K, 1 ≤ K ∧ toepK p.vals = some K := by
+  obtain ⟨⟨K, hK, hs, _⟩, _⟩ := h
+  exact ⟨K, hK, by simp [ListSem.toepK, hs]⟩
+
 /-- **validity of the leaf parameters**, class by class: what the Python constructors accept.  The classes no rule
-looks into (identity, scalar, broadcasting diagonal, dense, Toeplitz, observation matrix, opaque) are not
-constrained. -/
+looks into (identity, scalar, broadcasting diagonal, dense, observation matrix, opaque) are not constrained; a
+Toeplitz leaf whose band array is one-dimensional (the case the denotation interprets by the kernel, `toepK`) is
+`toeplitzOK`, one with a batched band (left to the environment) is not constrained. -/
 def listLeafOK : LeafCls → Params → Prop
+  | .toeplitz, p => toepK p.vals ≠ none → toeplitzOK p
   | .moveAxis, p => moveAxisOK p
   | .ravel, p => reshapeOK p
   | .reshape, p => reshapeOK p
@@ -237,6 +252,8 @@ theorem listLeafOK_identity (s : Struct) : listLeafOK .identity { inS := s, outS
 
 theorem listLeafOK_homothety (v : Rat) (s : Struct) :
     listLeafOK .homothety { inS := s, outS := s, vals := Tensor.scalar v } := trivial
+
+theorem listLeafOK_toeplitz {p : Params} (h : toeplitzOK p) : listLeafOK .toeplitz p := fun _ => h
 
 /-! ### 3. the rule laws -/
 
